@@ -161,7 +161,12 @@ class FixedSizeSample(base.MergeableMetric, base.HasAsAggFn):
       )
     self._reservoir = self._merge_reservoirs(other)
     self._num_samples_reviewed += other.num_samples_reviewed
-    self._logw += other.logw
+    # The acceptance weight of Algorithm L after n samples is the max_size-th
+    # smallest of n uniform keys: W ~ Beta(max_size, n - max_size + 1). (Adding
+    # the logs multiplied the weights of all merged samplers.)
+    n, k = self._num_samples_reviewed, self.max_size
+    if n > k:
+      self._logw = np.log(self._rng.beta(k, n - k + 1))
 
   def result(self) -> types.NumbersT:
     return self._reservoir
